@@ -26,6 +26,7 @@ PROP_MODULES = {
     "C02": [("C01Prime", r"inv_|invLoop|pow|powLoop"), ("C01Bin", r"pow|inv|bitProd|bitQuoRem|trace"), ("C02", r".*"),
             ("C01Ext", r"pow|inv|trace"), ("CodeTies", r"bitProd_tie|bitQuoRem_tie"), ("CodeTies2", r"prime_inv"), ("CodeTies3", r".*"), ("CodeTies4", r"pow|trace")],
     "C04": [("C04", r".*"), ("C04Full", r".*")],
+    "C05": [("C05", r".*"), ("CodeTies6", r".*")],
     "C08": [("C08", r".*"), ("CodeTies", r"addDegs_tie|subtractDegs_tie")],
     "C14": [("C14", r".*"), ("C14Full", r".*")],
     "C11": [("C11", r".*"), ("C11Full", r".*"), ("C11Full2", r".*")],
